@@ -68,16 +68,42 @@ fn text_is(n: &Name, bytes: &[u8]) -> bool {
     true
 }
 
+// Unicode property tables (char::is_alphabetic / is_numeric / is_alphanumeric on non-ASCII characters) are
+// skip-search loops over large tables; unchanged code never calls them, but a constructor that starts to
+// (e.g. `c.is_alphanumeric()` instead of the ASCII rule) would otherwise only produce an unwinding failure.
+// The constructor harnesses therefore range over ASCII plus ONE non-ASCII letter, U+00E9, and the two tables
+// are replaced by their exact value on that domain.
+fn alphabetic_stub(c: char) -> bool {
+    c as u32 == 0xE9
+}
+fn numeric_stub(_c: char) -> bool {
+    false
+}
+
+fn ctor_domain(bytes: &[u8; 3], len: usize) -> bool {
+    let mut i = 0;
+    let mut ok = true;
+    while i < 3 {
+        if i < len {
+            ok &= bytes[i] < 0x80 || bytes[i] == 0xC3 || bytes[i] == 0xA9;
+        }
+        i += 1;
+    }
+    ok
+}
+
 // every constructor funnels through the same syntax check and keeps the text
 macro_rules! ctor_harness {
     ($name:ident, $ctor:expr) => {
         #[kani::proof]
         #[kani::unwind(6)]
         #[kani::stub(alloc::fmt::format, fmt_stub)]
+        #[kani::stub(core::unicode::unicode_data::alphabetic::lookup, alphabetic_stub)]
+        #[kani::stub(core::unicode::unicode_data::n::lookup, numeric_stub)]
         fn $name() {
             let bytes: [u8; 3] = kani::any();
             let len: usize = kani::any();
-            kani::assume(len <= 3);
+            kani::assume(len <= 3 && ctor_domain(&bytes, len));
             if let Ok(s) = std::str::from_utf8(&bytes[..len]) {
                 let want = ref_name(&bytes[..len]);
                 let f: fn(&str) -> Result<Name, InvalidNameError> = $ctor;
@@ -92,6 +118,7 @@ macro_rules! ctor_harness {
                 assert!(same);
                 kani::cover!(ok && len == 3, "accepted");
                 kani::cover!(!ok && len == 3, "rejected");
+                kani::cover!(!ok && len == 3 && bytes[1] == 0xC3, "rejected: ASCII start followed by a non-ASCII letter");
             }
         }
     };
@@ -120,10 +147,12 @@ type DeErr = serde::de::value::Error;
 #[kani::proof]
 #[kani::unwind(6)]
 #[kani::stub(alloc::fmt::format, fmt_stub)]
+#[kani::stub(core::unicode::unicode_data::alphabetic::lookup, alphabetic_stub)]
+#[kani::stub(core::unicode::unicode_data::n::lookup, numeric_stub)]
 fn c10_name_deserialize() {
     let bytes: [u8; 3] = kani::any();
     let len: usize = kani::any();
-    kani::assume(len <= 3);
+    kani::assume(len <= 3 && ctor_domain(&bytes, len));
     if let Ok(s) = std::str::from_utf8(&bytes[..len]) {
         let want = ref_name(&bytes[..len]);
         let de: serde::de::value::StrDeserializer<'_, DeErr> = s.into_deserializer();
